@@ -173,6 +173,17 @@ func rel(name string, r int, ms []M, t osm.Tags) Variant {
 
 func absent() Variant { return Variant{"absent", nil} }
 
+func both(a, b Variant) Variant {
+	return Variant{a.Name + "+" + b.Name, func(s IDs, in *Input) {
+		if a.Add != nil {
+			a.Add(s, in)
+		}
+		if b.Add != nil {
+			b.Add(s, in)
+		}
+	}}
+}
+
 // Menu is the shared product of slots. Way numbers: A=1 (over the square),
 // B=2 (inner triangle or a street joining at n2), C=3 (second triangle).
 // Relation numbers: M=1 (multipolygon), P=2, Q=3 (plain relations; Q may
@@ -189,14 +200,10 @@ func Menu() []Slot {
 			absent(),
 			node(2, tags("name", "two")),
 		}},
-		{Name: "n1", Variants: []Variant{
-			node(1, nil),
-			node(1, tags("amenity", "cafe", "name", "one")),
-		}},
-		{Name: "n8", Quick: 2, Variants: []Variant{
-			absent(),
-			node(8, tags("wikidata", "Q1", "note", "a b")),
-			node(8, nil),
+		{Name: "n1+n8", Quick: 2, Variants: []Variant{
+			both(node(1, nil), absent()),
+			both(node(1, tags("amenity", "cafe", "name", "one")), node(8, tags("wikidata", "Q1", "note", "a b"))),
+			both(node(1, nil), node(8, nil)),
 		}},
 		{Name: "wayA", Quick: 4, Variants: []Variant{
 			way("closed-ccw-building", 1, []int{1, 2, 3, 4, 1}, tags("building", "yes", "name", "hall")),
@@ -279,4 +286,62 @@ func ChoiceNames(slots []Slot, choice []int) string {
 		out[i] = s.Name + ":" + s.Variants[choice[i]].Name
 	}
 	return strings.Join(out, " ")
+}
+
+// Block is a contiguous range of case indices: one ID scheme x the product of
+// the given radices.
+type Block struct {
+	Scheme  IDs
+	Radices []int
+	N       int64
+}
+
+// Blocks lays the case space of a tier out: quick = the quick variants under
+// the overlap and disjoint schemes; thorough = every variant under the overlap
+// scheme plus the quick variants under the disjoint and large schemes.
+func Blocks(slots []Slot, tier string) []Block {
+	mk := func(s IDs, t string) Block {
+		r := Radices(slots, t)
+		n := int64(1)
+		for _, x := range r {
+			n *= int64(x)
+		}
+		return Block{s, r, n}
+	}
+	if tier == "thorough" {
+		return []Block{mk(Schemes[0], "thorough"), mk(Schemes[1], "quick"), mk(Schemes[2], "quick")}
+	}
+	return []Block{mk(Schemes[0], "quick"), mk(Schemes[1], "quick")}
+}
+
+func Total(bs []Block) int64 {
+	n := int64(0)
+	for _, b := range bs {
+		n += b.N
+	}
+	return n
+}
+
+// Locate decodes case index i into its scheme and choice of variants.
+func Locate(bs []Block, i int64) (IDs, []int) {
+	for _, b := range bs {
+		if i < b.N {
+			d := make([]int, len(b.Radices))
+			for j, r := range b.Radices {
+				d[j] = int(i % int64(r))
+				i /= int64(r)
+			}
+			return b.Scheme, d
+		}
+		i -= b.N
+	}
+	panic("case index out of range")
+}
+
+func BlocksString(bs []Block) string {
+	parts := make([]string, len(bs))
+	for i, b := range bs {
+		parts[i] = fmt.Sprintf("%s IDs x %v variants per slot = %d", b.Scheme.Name, b.Radices, b.N)
+	}
+	return strings.Join(parts, "; ")
 }
